@@ -6,6 +6,7 @@ mod framing;
 mod timing;
 mod hitobj;
 mod events;
+mod curve;
 
 use util::*;
 
@@ -24,6 +25,8 @@ fn main() {
         ("hitobj", "replay") => hitobj::replay(&args, &mut s),
         ("events", "replay") => events::replay(&args, &mut s),
         ("events", "record") => events::record(&args, &mut s),
+        ("curve", "replay") => curve::replay(&args, &mut s),
+        ("cache", "replay") => curve::cache_replay(&args, &mut s),
         (m, o) => {
             eprintln!("unknown module/mode {m} {o}");
             std::process::exit(2);
